@@ -504,6 +504,9 @@ func (c *resultCodec) Decode(source io.Reader, version primitive.ProtocolVersion
 		if rowsCount, err = primitive.ReadInt(source); err != nil {
 			return nil, fmt.Errorf("cannot read RESULT Rows data length: %w", err)
 		}
+		if rowsCount < 0 {
+			return nil, fmt.Errorf("invalid RESULT Rows data length: %d", rowsCount)
+		}
 		rows.Data = make(RowSet, rowsCount)
 		for i := 0; i < int(rowsCount); i++ {
 			rows.Data[i] = make(Row, rows.Metadata.ColumnCount)
